@@ -601,7 +601,7 @@ def generate(measured=None):
                 % tuple(b(m[k]) for k in ("Lsoda", "Vode", "VodeBdf", "Dopri5", "Dop853", "setiv_copies")) +
                 "Definition solver_atol : Q := %s.\nDefinition solver_rtol : Q := %s.\n" % (q(tols["atol"]), q(tols["rtol"])) +
                 "Definition jacobian_outtype : option outtype := %s.\n" % jac)
-    except Unsupported as e:
+    except (Unsupported, ValueError, TypeError, IndexError, KeyError, AttributeError, AssertionError, RecursionError) as e:   # any surprise in the source = fail closed
         return failed("IntegrateGen", str(e)) + HEAD + BAD
 
 
